@@ -774,7 +774,9 @@ func (m *Message) GetClientTransaction() (string, error) {
 		return "", err
 	}
 
-	return fmt.Sprintf("%s-%s", cseq.Method, branch), nil
+	// the method is one word, so a blank separates it from the branch unambiguously
+	// (with '-', method A-B + branch C and method A + branch B-C gave the same key)
+	return fmt.Sprintf("%s %s", cseq.Method, branch), nil
 
 }
 
